@@ -4,6 +4,7 @@ CONSTANTS
   MaxCrash = 2
   Guard = FALSE
   Tiny = FALSE
+  Queued = FALSE
 INVARIANTS Recoverable
 CHECK_DEADLOCK FALSE
 CONSTRAINT Bound
